@@ -65,6 +65,7 @@ class State:
         s.ptyped = set(getattr(self, 'ptyped', ()) or ())
         s.arrdefs = set(getattr(self, 'arrdefs', None) or ())
         s.loop_mark = getattr(self, 'loop_mark', 0)
+        s.loop_heads = dict(getattr(self, 'loop_heads', None) or {})
         s.held = getattr(self, 'held', ())
         s.actions = getattr(self, 'actions', [])
         s.pending_action = getattr(self, 'pending_action', None)
@@ -720,6 +721,10 @@ class Exec:
                 return
             if bi not in body:
                 return               # loop exit: does not flow into another iteration
+        if pred is not None and d is None:
+            for h_, body_ in fr.heads.items():
+                if (pred == h_ or pred in body_) and bi != h_ and bi not in body_ and fr.havocked.get(h_):
+                    self.check_iteration(fr, h_, st, what='exit')
         if bi in fr.heads:
             pol = self.loop_policy(fr, bi)
             body = fr.heads[bi]
@@ -752,6 +757,11 @@ class Exec:
                 fr.havocked[bi] = True
                 self.assume_invariants(fr, bi, invs, decs, st)
                 st.loop_mark = len(st.trace)
+                # state and locals at the loop head (after the invariants were assumed): `athead(e)` in iteration clauses;
+                # kept per head so that the clauses of an outer loop see their own head again after an inner loop
+                if not hasattr(st, 'loop_heads'):
+                    st.loop_heads = {}
+                st.loop_heads[(fr.id, bi)] = (len(st.trace), dict(self.local_env(fr, st)), st.copy())
                 self.run_instrs(fr, bi, self.first_nonphi(fr.f['blocks'][bi]), pred, st, k)
                 return
         self.phis(fr, bi, pred, st)
@@ -927,20 +937,25 @@ class Exec:
                     self.oblige(st, '%s/%s/loop.%s.decreases' % (self.tagstr(c), self.prog.short(fr.f['name']), lid), g,
                                 tags=c.tags or ['C13'], where='%s:%d' % (c.file, c.line), kind='variant')
 
-    def check_iteration(self, fr, head, st):
+    def check_iteration(self, fr, head, st, what='iteration'):
         """`loop X: iteration expr` -- obligation at the end of every iteration (events since the loop head are visible
-        through itercalls("f") / iterselect())."""
+        through itercalls("f") / iterselect()); `loop X: exit expr` -- obligation on every edge that leaves the loop
+        (`athead(e)`: at the head of the iteration that leaves)."""
         con = self.spec.contract_for(fr.f['name']) if self.spec else None
         if con is None:
             return
         lid = self.loop_id(fr.f, head)
         env = self.local_env(fr, st)
+        hd = (getattr(st, 'loop_heads', None) or {}).get((fr.id, head))
+        if hd is not None:
+            st.loop_mark = hd[0]
+            st.cur_head = hd
         for c in con.of('loop'):
-            if c.extra['loop'] != lid or c.extra['what'] != 'iteration' or not self.active(c):
+            if c.extra['loop'] != lid or c.extra['what'] != what or not self.active(c):
                 continue
             e = self.spec_parse(c.extra['arg'])
             g = self.spec.eval_bool(self, e[2], env, st, self.old_for(st))
-            self.oblige(st, '%s/%s/loop.%s.iteration.%s' % ('+'.join(e[0]) or 'AUX', self.prog.short(fr.f['name']), lid, e[1] or 'it'), g,
+            self.oblige(st, '%s/%s/loop.%s.%s.%s' % ('+'.join(e[0]) or 'AUX', self.prog.short(fr.f['name']), lid, what, e[1] or 'it'), g,
                         tags=e[0], where='%s:%d' % (c.file, c.line), kind='invariant')
 
     def spec_parse(self, text):
@@ -1010,10 +1025,32 @@ class Exec:
                     env[old_n] = env[new_n]
         top = self.cur_fn
         own = fr.f['name'] == top or fr.f['name'].startswith(top + '$')
+        pnames = set(p_['n'] for p_ in (fr.f.get('params') or [])) if fr.f['name'] == top else ()
         for n, ent in self.cur_env.items():
+            if n in pnames and n in fr.names and not self.same_binding(fr.names[n], ent):
+                # a parameter that the code re-assigns (Go parameters are mutable): the name denotes the current value,
+                # `old(name)` the entry value
+                env['$entry$' + n] = ent
+                continue
             if own or n not in env:
                 env[n] = ent
         return env
+
+    @staticmethod
+    def same_binding(a, b):
+        if a is b:
+            return True
+        if a[0] != b[0] or a[0] != 'val':
+            return a[0] != 'val' and a[1] is b[1]
+        x, y = a[1].x, b[1].x
+        if x is y:
+            return True
+        if isinstance(x, PAddr) and isinstance(y, PAddr):
+            x, y = x.base, y.base
+        try:
+            return bool(x.eq(y))
+        except Exception:
+            return True
 
     # ------------------------------------------------------------------------------------------
     # instructions
